@@ -21,19 +21,36 @@ Definition update_space (allow tune : bool) (osp : hps) (hp : hps) : us_res :=
 (* ensure_active_values; `draw k h` is the k-th unseeded random_sample(), taken for entry h *)
 Section ensure.
 Variable draw : nat -> hp -> value.
-Fixpoint ensure_go (sp : list hp) (v : vals) (k : nat) : vals * nat :=
+(* reference version without the same-name guard (what ensure_active_values does when names are distinct) *)
+Fixpoint ensure_go0 (sp : list hp) (v : vals) (k : nat) : vals * nat :=
   match sp with
   | [] => (v, k)
   | h :: rest =>
       if conds_active v (h_conds h) then
         match v !! h_name h with
-        | Some _ => ensure_go rest v k
-        | None => ensure_go rest (<[h_name h := draw k h]> v) (S k)
+        | Some _ => ensure_go0 rest v k
+        | None => ensure_go0 rest (<[h_name h := draw k h]> v) (S k)
         end
-      else ensure_go rest (delete (h_name h) v) k
+      else ensure_go0 rest (delete (h_name h) v) k
+  end.
+(* HyperParameters.is_active(name): some entry of that name is active *)
+Definition name_active (all : list hp) (v : vals) (n : name) : bool :=
+  existsb (fun h' => bool_decide (h_name h' = n) && conds_active v (h_conds h')) all.
+(* the source: an inactive entry drops the value of its name only if no other entry of that name is active *)
+Fixpoint ensure_go (all sp : list hp) (v : vals) (k : nat) : vals * nat :=
+  match sp with
+  | [] => (v, k)
+  | h :: rest =>
+      if conds_active v (h_conds h) then
+        match v !! h_name h with
+        | Some _ => ensure_go all rest v k
+        | None => ensure_go all rest (<[h_name h := draw k h]> v) (S k)
+        end
+      else if name_active all v (h_name h) then ensure_go all rest v k
+      else ensure_go all rest (delete (h_name h) v) k
   end.
 Definition ensure_active (s : hps) (k : nat) : hps * nat :=
-  let '(v, k') := ensure_go (s_space s) (s_values s) k in (set_values s v, k').
+  let '(v, k') := ensure_go (s_space s) (s_space s) (s_values s) k in (set_values s v, k').
 
 Definition scope_in (c : list cond) (l : list (list cond)) : bool := existsb (conds_eqb c) l.
 Fixpoint remove_first (c : list cond) (l : list (list cond)) : list (list cond) :=
